@@ -7,6 +7,13 @@ use crate::memtransport as mt;
 #[derive(Clone, Debug, PartialEq)]
 pub enum Fault {
     RpcError,
+    /// an rpc-error of severity error, one of severity warning, then `<ok/>`: not an acknowledgement
+    ErrWarnOk,
+    /// two rpc-errors (warning, error), for a load also `<load-error-count>`: not an acknowledgement
+    ErrCount,
+    /// NOT a fault: a warning followed by `<ok/>` (for bare replies: a warning only) is a positive
+    /// acknowledgement; the run must go on exactly as without it
+    WarnOk,
     Malformed,
     WrongId,
     CloseBefore,
@@ -17,6 +24,9 @@ impl Fault {
     pub fn token(&self) -> &'static str {
         match self {
             Fault::RpcError => "rpcerr",
+            Fault::ErrWarnOk => "errwarnok",
+            Fault::ErrCount => "errcount",
+            Fault::WarnOk => "warnok",
             Fault::Malformed => "malformed",
             Fault::WrongId => "wrongid",
             Fault::CloseBefore => "closebefore",
@@ -26,6 +36,9 @@ impl Fault {
     pub fn parse(s: &str) -> Option<Fault> {
         Some(match s {
             "rpcerr" => Fault::RpcError,
+            "errwarnok" => Fault::ErrWarnOk,
+            "errcount" => Fault::ErrCount,
+            "warnok" => Fault::WarnOk,
             "malformed" => Fault::Malformed,
             "wrongid" => Fault::WrongId,
             "closebefore" => Fault::CloseBefore,
@@ -61,6 +74,7 @@ fn op_name(req: &str) -> String {
     inner[k + 1..].chars().take_while(|c| c.is_alphanumeric() || *c == '-').collect()
 }
 
+const WARN: &str = "<rpc-error><error-type>application</error-type><error-tag>operation-failed</error-tag><error-severity>warning</error-severity><error-message>statement not found</error-message></rpc-error>";
 const ERR: &str = "<rpc-error><error-type>protocol</error-type><error-tag>operation-failed</error-tag><error-severity>error</error-severity><error-message>injected</error-message></rpc-error>";
 
 fn reply(id: &str, body: &str) -> String {
@@ -111,6 +125,28 @@ pub async fn serve(peer: mt::Peer, script: Script, log: Arc<Mutex<Log>>) {
                     reply(&id, &format!("<load-configuration-results>{ERR}<load-error-count>1</load-error-count></load-configuration-results>"))
                 } else {
                     reply(&id, ERR)
+                }
+            }
+            Some(Fault::ErrWarnOk) => {
+                let ok = if name == "get-config" { ok_body.clone() } else { "<ok/>".to_string() };
+                if name == "load-configuration" {
+                    reply(&id, &format!("<load-configuration-results>{ERR}{WARN}<ok/></load-configuration-results>"))
+                } else {
+                    reply(&id, &format!("{ERR}{WARN}{ok}"))
+                }
+            }
+            Some(Fault::ErrCount) => {
+                if name == "load-configuration" {
+                    reply(&id, &format!("<load-configuration-results>{WARN}{ERR}<load-error-count>1</load-error-count></load-configuration-results>"))
+                } else {
+                    reply(&id, &format!("{WARN}{ERR}"))
+                }
+            }
+            Some(Fault::WarnOk) => {
+                if name == "load-configuration" {
+                    reply(&id, &format!("<load-configuration-results>{WARN}<ok/></load-configuration-results>"))
+                } else {
+                    reply(&id, &ok_body)
                 }
             }
             Some(Fault::Malformed) => format!("<rpc-reply xmlns=\"{}\" message-id=\"{id}\"><unterminated]]>]]>", mt::BASE_NS),
